@@ -112,11 +112,11 @@ type family struct {
 	history []string
 	// pairs: under these configs, consecutive first-rule inputs run on TWO instances initialised from the same option
 	// values (Size 64); the first instance is inspected only after the second has parsed
-	pairs     []string
+	pairs []string
 	// retries: under these configs (never -inline ones), some inputs are parsed on ONE instance without Reset from
 	// several entry rules in turn (rules the reference rejects first, then one it accepts): after failed attempts
 	// a successful Parse(rule) must give the reference's verdict and token sequence
-	retries []string
+	retries   []string
 	maxDepth  int // drop cases whose derivation nests deeper than this many rule applications (0 = no bound)
 	stateCode func(cs *gcase) func(int) string
 	noexec    bool
@@ -478,8 +478,9 @@ func (f *family) runBatch(peg string, cases []*gcase, vs []variant, bno int) {
 		}
 	}
 	if cp.WatchdogHits > 0 {
-		f.c.run.Incon(fmt.Sprintf("%d child processes were stopped by the wall-clock watchdog", cp.WatchdogHits))
+		f.c.run.Incon(fmt.Sprintf("%d child processes were stopped by the wall-clock watchdog or killed from outside (not by this check's limits)", cp.WatchdogHits))
 	}
+	f.c.run.Max("peak_child_resident_mb", cp.PeakMB)
 	if cp.Abandoned > 0 {
 		f.c.run.Count("requests_not_run_after_repeated_child_deaths", cp.Abandoned)
 	}
